@@ -32,7 +32,7 @@ def strategy(tier_n):
         tau = draw(st.floats(0.05, 0.8))
         if fam == 'frank' and draw(st.booleans()):
             tau = -tau
-        return {'family': fam, 'tau': tau, 'how': draw(st.sampled_from(['set', 'set', 'fit'])),
+        return {'family': fam, 'tau': tau, 'how': draw(st.sampled_from(['set', 'set', 'fit', 'refit'])), 'tau0': draw(st.floats(0.05, 0.8)),
                 'seed': draw(S.SEEDS), 'seed_kind': draw(st.sampled_from(['int', 'RandomState'])),
                 'fit_seed': draw(S.SEEDS), 'n_scale': tier_n}
 
@@ -57,6 +57,13 @@ def oracle(case):
 
         cop = {'clayton': bivariate.Clayton, 'frank': bivariate.Frank, 'gumbel': bivariate.Gumbel}[fam](random_state=seed)
         try:
+            if case['how'] == 'refit':
+                # history: the same object was fitted (and used) at another tau before
+                tau0 = case.get('tau0', 0.3) * (-1 if (fam == 'frank' and tau > 0) else 1)
+                Xp = np.clip(ref.sample_ref(fam, ref.theta_from_tau(fam, tau0), 400, np.random.RandomState(case['fit_seed'] + 1)), 0, 1)
+                cop.fit(Xp)
+                cop.sample(5)
+                cop.cumulative_distribution(Xp[:3])
             cop.fit(X0)
         except ValueError:
             return {'nontrivial': False, 'classes': ['fit-refused']}
